@@ -690,7 +690,7 @@ impl Property for C13 {
             init_ccr: Some(if masked { 0x80 | rng.u8() } else { rng.u8() & 0x7f }),
             stack_off: if rng.chance(1, 2) { 0 } else { 4 * rng.below(64) as u16 },
             // 9: the program transfers to exit + 1 (not the exit address); 10: an odd exit address
-            exit_style: if rng.chance(1, 2) { 0 } else { rng.below(11) as u8 },
+            exit_style: if rng.chance(1, 2) { 0 } else { rng.below(12) as u8 },
         };
         let est = super::c10::estimate_iters(&guest);
         let print_msgs = rng.chance(1, 8);
